@@ -446,8 +446,9 @@ def nodeAddRep (s : PS n) (p : Fin n) (v : Int) : PS n :=
   | some nd => setNode s p (some { nd with rep := addI nd.rep v })
   | none => s
 
-/-- loop of `PeerSet.disconnect` with reason UnknownDrop (the only one the actor uses) -/
-def disconnectLoop : List (Fin n) → Ctx n → Ctx n × Bool
+/-- loop of `PeerSet.disconnect`; `refused` = reason RefusedDrop (the actor only uses UnknownDrop):
+    the peer is then also removed with `removePeer` -/
+def disconnectLoop (refused : Bool) : List (Fin n) → Ctx n → Ctx n × Bool
   | [], c => allocSlots c
   | p :: rest, c =>
     if status c.s p ≠ .connected then (c, true)
@@ -455,10 +456,48 @@ def disconnectLoop : List (Fin n) → Ctx n → Ctx n × Bool
       let s1 := nodeAddRep c.s p disconnectChange
       let d := psDisconnect s1 p
       if d.2 then (withS c d.1, true)
-      else disconnectLoop rest (emit c d.1 (.drop p))
+      else
+        let c1 := emit c d.1 (.drop p)
+        if refused then
+          let r := removePeer [p] c1
+          if r.2 then r else disconnectLoop refused rest r.1
+        else disconnectLoop refused rest c1
 
-def disconnect (ps : List (Fin n)) (c : Ctx n) : Ctx n × Bool :=
-  disconnectLoop ps (withS c (updateTime c.s))
+def disconnect (refused : Bool) (ps : List (Fin n)) (c : Ctx n) : Ctx n × Bool :=
+  disconnectLoop refused ps (withS c (updateTime c.s))
+
+/-- `toInsert` of `setReservedPeer`: the listed peers that are not reserved, in list order -/
+def toInsert (s : PS n) (ps : List (Fin n)) : List (Fin n) := ps.filter (fun p => !s.reserved p)
+
+/-- `toRemove` of `setReservedPeer`: the reserved peers that are not listed.  Go collects them with
+    `for pid := range ps.reservedNode`, i.e. in map order: `ord` is that order (peers of `ord` first,
+    the others after them). -/
+def toRemove (s : PS n) (ps ord : List (Fin n)) : List (Fin n) :=
+  let want := fun p => s.reserved p && !(decide (p ∈ ps))
+  (ord.eraseDups.filter want) ++ ((allPeers n).filter (fun p => want p && !(decide (p ∈ ord))))
+
+/-- `setReservedPeer` -/
+def setReservedPeer (ps ord : List (Fin n)) (c : Ctx n) : Ctx n × Bool :=
+  let ins := toInsert c.s ps
+  let rem := toRemove c.s ps ord
+  let a := addReservedPeers ins c
+  if a.2 then a else removeReservedPeers rem a.1
+
+/-- `Reputation`-descending insertion (a peer goes before the peers that are not better) -/
+def insertDesc (s : PS n) (p : Fin n) : List (Fin n) → List (Fin n)
+  | [] => [p]
+  | q :: l => if repOf s p ≥ repOf s q then p :: q :: l else q :: insertDesc s p l
+
+/-- connected (ingoing or outgoing) -/
+def conn (s : PS n) (p : Fin n) : Bool :=
+  match s.nodes p with
+  | some nd => nd.st.connected
+  | none => false
+
+/-- `PeersState.sortedPeers`: the connected peers by descending reputation (Go's `sort.Slice` leaves the
+    order of equal reputations to the map order; here ties are in ascending peer order) -/
+def sortedPeers (s : PS n) : List (Fin n) :=
+  ((allPeers n).filter (conn s)).foldr (insertDesc s) []
 
 /-! ### Operations of the actor -/
 
@@ -470,6 +509,14 @@ inductive Op (n : Nat) where
   | report (v : Int) (ps : List (Fin n))
   | incoming (ps : List (Fin n))
   | disconnect (ps : List (Fin n))
+  /-- `PeerSet.disconnect` with RefusedDrop (not reachable through the actor) -/
+  | disconnectRefused (ps : List (Fin n))
+  /-- `setReservedPeer`; `ord` is the map order in which the peers to remove are collected -/
+  | setReserved (ps : List (Fin n)) (ord : List (Fin n))
+  /-- the `sortedPeers` query: no effect on the state -/
+  | sortedPeers
+  /-- the `setReservedOnly` action: "not implemented yet", an error and no effect -/
+  | setReservedOnly
   /-- the periodic ticker: `allocSlots(0)` -/
   | tick
   /-- `k` more seconds pass; `mask` lists the nodes whose forget comparison is true -/
@@ -487,7 +534,11 @@ def applyOp (op : Op n) (c : Ctx n) : Ctx n × Bool :=
   | .removePeer ps => removePeer ps c
   | .report v ps => reportPeer v ps c
   | .incoming ps => incoming ps c
-  | .disconnect ps => disconnect ps c
+  | .disconnect ps => disconnect false ps c
+  | .disconnectRefused ps => disconnect true ps c
+  | .setReserved ps ord => setReservedPeer ps ord c
+  | .sortedPeers => (c, false)
+  | .setReservedOnly => (c, true)
   | .tick => allocSlots c
   | .adv k mask => (withS c { c.s with pending := c.s.pending + k, fmask := fun p => decide (p ∈ mask) }, false)
 
@@ -500,6 +551,90 @@ def step (s : PS n) (op : Op n) (hint : List (Msg n)) : PS n × List (Msg n) × 
 def run (s : PS n) : List (Op n × List (Msg n)) → PS n
   | [] => s
   | (op, h) :: rest => run (step s op h).1 rest
+
+/-! ### The actor of handler.go
+
+`Handler.AddReservedPeer` … only append an `action` to `actionQueue`; the goroutine
+`listenActionAllocSlots` takes the actions one at a time and calls the synchronous method, or, when
+the ticker fires, `allocSlots` for every set.  Events are the API calls, the actor serving the head
+of the queue, and the ticker firing, in any interleaving. -/
+
+inductive Action (n : Nat) where
+  | addReservedPeer (ps : List (Fin n))
+  | removeReservedPeer (ps : List (Fin n))
+  | setReservedPeers (ps : List (Fin n))
+  | setReservedOnly
+  | reportPeer (v : Int) (ps : List (Fin n))
+  | addToPeerSet (ps : List (Fin n))
+  | removeFromPeerSet (ps : List (Fin n))
+  | incoming (ps : List (Fin n))
+  | sortedPeers
+  | disconnect (ps : List (Fin n))
+
+/-- the `switch act.actionCall` of `listenActionAllocSlots` (`ord`: map order used by setReservedPeer) -/
+def Action.toOp (ord : List (Fin n)) : Action n → Op n
+  | .addReservedPeer ps => .addReserved ps
+  | .removeReservedPeer ps => .removeReserved ps
+  | .setReservedPeers ps => .setReserved ps ord
+  | .setReservedOnly => .setReservedOnly
+  | .reportPeer v ps => .report v ps
+  | .addToPeerSet ps => .addPeer ps
+  | .removeFromPeerSet ps => .removePeer ps
+  | .incoming ps => .incoming ps
+  | .sortedPeers => .sortedPeers
+  | .disconnect ps => .disconnect ps
+
+/-- a served action or a ticker firing, with the operation that was applied and its hint -/
+structure LogEntry (n : Nat) where
+  act : Option (Action n)
+  op : Op n
+  hint : List (Msg n)
+
+structure HS (n : Nat) where
+  ps : PS n
+  /-- `actionQueue` -/
+  queue : List (Action n)
+  /-- everything sent on `resultMsgCh` -/
+  out : List (Msg n)
+  /-- replies sent on the `resultPeersCh` of the `sortedPeers` actions -/
+  replies : List (List (Fin n))
+  /-- ghost: what the actor did, in order -/
+  log : List (LogEntry n)
+
+inductive Ev (n : Nat) where
+  /-- a public API method of `Handler` -/
+  | call (a : Action n)
+  /-- the actor receives from `actionQueue` -/
+  | serve (hint : List (Msg n)) (ord : List (Fin n))
+  /-- the ticker fires -/
+  | fire (hint : List (Msg n))
+
+def hstep (h : HS n) : Ev n → HS n
+  | .call a => { h with queue := h.queue ++ [a] }
+  | .serve hint ord =>
+    match h.queue with
+    | [] => h
+    | a :: q =>
+      let r := step h.ps (a.toOp ord) hint
+      { ps := r.1, queue := q, out := h.out ++ r.2.1,
+        replies := match a with
+          | .sortedPeers => h.replies ++ [sortedPeers h.ps]
+          | _ => h.replies,
+        log := h.log ++ [⟨some a, a.toOp ord, hint⟩] }
+  | .fire hint =>
+    let r := step h.ps .tick hint
+    { h with ps := r.1, out := h.out ++ r.2.1, log := h.log ++ [⟨none, .tick, hint⟩] }
+
+def hrun (h : HS n) (evs : List (Ev n)) : HS n := evs.foldl hstep h
+
+def newHS (maxIn maxOut : Nat) (ro : Bool) : HS n :=
+  { ps := newPS maxIn maxOut ro, queue := [], out := [], replies := [], log := [] }
+
+/-- the API calls of a schedule, in order -/
+def callsOf : List (Ev n) → List (Action n)
+  | [] => []
+  | .call a :: rest => a :: callsOf rest
+  | _ :: rest => callsOf rest
 
 /-! ### Observables shared with the harness -/
 
